@@ -37,8 +37,12 @@ META = {
                   "the generated wrapper invokes the host function only after the arity check and the conversion of "
                   "every argument succeeded and passes exactly the converted arguments (under the decidable guard that "
                   "the macro index table is the identity, decided for every arity but 16); for EVERY sequence of "
-                  "lend / copy / drop / use / derive / end-of-call operations no use of a lent reference succeeds after "
-                  "its lending call returned.  Parts that do not hold as found are stated in full, proved under a "
+                  "lend / copy / drop / use / derive / end-of-call operations (any nesting, any number of stashed copies) "
+                  "in which no host function is running on a handle in another thread, no use of a lent reference "
+                  "succeeds after its lending call returned (policy as found and repaired); for references derived from "
+                  "a lent one the same is proved for the repaired freeing policy and, as found, under the decidable guard "
+                  "that no end of call left owners behind; no mutable use while a directly derived reference is live "
+                  "(unconditional), transitively under the guard that no handle was dropped under a live descendant.  Parts that do not hold as found are stated in full, proved under a "
                   "decidable guard and refuted by a decide witness that is replayed on the real code (known findings).",
     "level_note": "Trusted: Lean kernel (propext, Classical.choice, Quot.sound), translator regexes, harness/driver/diff. "
                   "Model only: persistent map/set insertion is entry-wise (distinct keys), floats are bit patterns, "
